@@ -109,6 +109,7 @@ fn part_entry_points(thorough: bool) -> Acc {
             (d, am)
         })
         .collect();
+    let depths: Vec<usize> = docs.iter().map(|(d, _)| crate::gen::docs::depth(d)).collect();
     let mut qs: Vec<String> = sentences::sentences(thorough).iter().map(render::query).collect();
     // queries that differ only in a blank run inside a string (anything keyed on normalised query text collides)
     docs_extra_queries(&mut qs);
@@ -117,10 +118,14 @@ fn part_entry_points(thorough: bool) -> Acc {
     qs.par_iter()
         .map(|q| {
             let mut acc = Acc::new();
-            for (d, am) in &docs {
+            for ((d, am), depth) in docs.iter().zip(depths.iter()) {
+                if crate::gen::docs::too_big(q, *depth) {
+                    acc.bump("skipped_multi_descendant_on_deep_document", 1);
+                    continue;
+                }
                 entry_points(&mut acc, q, d, am);
             }
-            kept_query_over_documents(&mut acc, q, docs.iter().map(|x| &x.0));
+            kept_query_over_documents(&mut acc, q, docs.iter().zip(depths.iter()).filter(|(_, depth)| !crate::gen::docs::too_big(q, **depth)).map(|(x, _)| &x.0));
             acc
         })
         .reduce(Acc::new, Acc::merge)
